@@ -12,7 +12,8 @@ CHECKS = {
          "space-filled window; TLC checks on all length vectors of <= 5 symbols that the transcription of tree_decode.c stays in "
          "bounds, terminates and equals the canonical code on complete codes. Three-way agreement at real scale: an independent "
          "encoder emits streams for structural cases (every code and offset symbol, all zero-run forms, skip values, single-symbol "
-         "tables, 16-bit codes, blocks of one command, empty blocks, distances into the pre-filled window) and random command lists; "
+         "tables, 16-bit codes, blocks of one command, empty blocks, distances into the pre-filled window, overlap x ring seam for -lh5-) "
+         "and random command lists; "
          "the real decoder's every chunk must equal the TLA+ definition's chunk and the corresponding slice of the LZ77 expansion of "
          "the commands. The definition is grounded on the third-party streams of the corpus.",
     design_ref="DESIGN.md section 5, C01",
@@ -48,7 +49,8 @@ CHECKS = {
     text="Codec_Lzs/Lz5/Null.tla define the LArc formats declaratively (flags, absolute ring positions, the LArc initial fill pattern by "
          "region, write positions, self-overlapping copies); TLC checks on scaled-down rings that for all command lists of length "
          "<= 3 the definition equals plain LZ77 expansion and the ring transcription. At real scale, an independent encoder's streams "
-         "(copies from every region of the lz5 pattern, never-written positions, seam positions, extreme lengths, overlap distances, "
+         "(copies from every region of the lz5 pattern, never-written positions, seam positions, extreme lengths, overlap distances, overlap x "
+         "ring seam: sources that run into the bytes being written and begin k bytes before the end of the ring for every k, "
          "every literal count per flag byte, stored data of every length around the 1 KiB block size) are decoded by the real "
          "decoders; every chunk must equal the definition's and the expansion of the commands. Grounded on the corpus.",
     design_ref="DESIGN.md section 5, C03",
@@ -74,7 +76,9 @@ CHECKS = {
          "confined to header bytes (located by an independent container walker), truncations and bit flips; structurally "
          "generated archives with inconsistent/extreme length fields (level-3 lengths and extended sizes, level-1 chains, 4 GiB "
          "members, endless decoders); mutated generated headers of all levels (the generator of C05/C12); random bytes behind a "
-         "valid signature with plausible level/length/checksum bytes; bit-flipped generated multi-member archives. Each input "
+         "valid signature with plausible level/length/checksum bytes; bit-flipped generated multi-member archives; the cross product header "
+         "shape x OS type x kind of body (Mac envelopes behind nameless headers, link modes without targets); level 0 / 1 headers whose "
+         "name length sits on or next to what the header leaves room for. Each input "
          "is driven through the library with disciplined random call sequences (next/read/check/extract, three directory "
          "policies, five stream kinds) and through the tool in modes l, lv, v, vv, t, p, xn and x. Any sanitizer report, signal, "
          "abnormal exit status or exhausted step budget is a violation; a sample of the library executions is validated against "
@@ -95,7 +99,8 @@ CHECKS = {
          "length/CRC, inner decoder never called after it returned 0). Block headers of the -lh4-..-lk7- family are assembled by hand "
          "with every value of every table field (single-code tables naming symbols beyond the alphabet, counts beyond it). Every "
          "hostile stream of at most 200 bytes is also decoded by the TLA+ format definitions (Trace_Codec): on invalid input the C "
-         "decoder must produce exactly the definition's chunks (the definitions index nothing outside ring, tables and buffer).",
+         "decoder must produce exactly the definition's chunks (the definitions index nothing outside ring, tables and buffer). Read "
+         "schedules include small reads that leave a decoded run half-consumed followed by reads of about one run (17 .. 4097 bytes).",
     design_ref="DESIGN.md section 5, C09",
     note="Not a proof: memory safety is observed by sanitizers on the executions run. Found and fixed: -pm2- copy_decode overrun "
          "(known_findings.json).",
@@ -198,7 +203,10 @@ CHECKS = {
          "under UTC, Windows times as words, common CRC). The definition is grounded on all 233 member headers of the third-party "
          "corpus. Every case - corpus headers, 12000 (thorough: 150000) random well-formed headers with fields at their range ends "
          "and random extended-header mixes, every order of up to 3 (4) of the 11 extended-header types, symlinks with '|' on both "
-         "sides - is run through lha_reader_next_file and TLC compares every returned field (and the first member bytes) with Parse.",
+         "sides, two stored strings per header (in-header name with a directory part next to path / file name headers, both orders), "
+         "the identity cross product (OS type x method x length x name header x path header x kind of permissions x level), names a "
+         "decoder might treat specially, FILETIME values at the conversion boundaries - is run through lha_reader_next_file and TLC "
+         "compares every returned field (and the first member bytes) with Parse.",
     design_ref="DESIGN.md section 5, C05",
     note="TZ=UTC and the C locale are assumed. The TLA+ definition is the oracle; it was written independently of the C control flow "
          "and agrees with the C code on the whole corpus.",
@@ -209,8 +217,9 @@ CHECKS = {
          "(transcribed) equals the declarative normal form, that the result is clean, not longer, and idempotent. On the "
          "implementation, all strings over {'.','/','\\',0xFF,NUL,'a'} up to length 5 (thorough 7) are put through ten carriers "
          "(level-0/1 in-header names, file-name and path extended headers, directory entries, level 3, symlinks in both spellings) "
-         "for case-folding and non-folding OS types, plus random longer strings; TLC evaluates Clean(path, filename) on every "
-         "returned header.",
+         "for case-folding and non-folding OS types, plus random longer strings, plus all pairs of strings of up to 2 (thorough 3) "
+         "characters over {'.','/','\\','a'} in seven two-string carriers (in-header name next to a path and / or file name header, "
+         "both orders, doubled path headers); TLC evaluates Clean(path, filename) on every returned header.",
     design_ref="DESIGN.md section 5, C11",
     note="The cleanliness predicate is evaluated on the logged values of the real library; the model only adds the equivalence "
          "argument for collapse_path.",
@@ -222,7 +231,8 @@ CHECKS = {
          "position of the header, every truncation point, and perturbations of every length field; plus sparse mutations of "
          "hundreds of random headers. For each mutated input TLC evaluates the integrity rule (Header.tla's Parse, incl. byte "
          "checksum and CRC-16 computed in TLA+) on the logged bytes and requires: rule fails => no header returned and the next "
-         "request returns none either.",
+         "request returns none either. The identity cross product (OS type x method x length x name header x path header x kind of "
+         "permissions x level) covers the rules about entries without a name or a path, the Amiga directory quirk included.",
     design_ref="DESIGN.md section 5, C12",
     note="A dummy member precedes each case so that the lead-in scan (which would skip a damaged signature) is not in play.",
     technique="TLA+ executable integrity rule (Header.tla) evaluated by TLC on exhaustive single-byte substitutions / truncations, "
@@ -347,7 +357,9 @@ CHECKS = {
          "definition (quick: all states x basis bytes, basis states x all bytes, plus GF(2)-linearity), and that "
          "piecewise feeding equals whole feeding; the C routine is then compared exhaustively (2^24 one-byte, "
          "2^32 two-byte cases in the thorough tier) with the table TLC exported, TLC-generated feeding behaviours "
-         "are replayed into it, and recorded executions with random splits are validated by a trace spec.",
+         "are replayed into it, and recorded executions with random splits are validated by a trace spec. Structured buffers - 32-bit "
+         "fields with boundary values in both byte orders behind 0..9 zero bytes, from register 0 / all ones, every alignment and "
+         "every split - are compared with the exported table as well (180 096 cases).",
     design_ref="DESIGN.md section 5, C17",
     note="Trusted: TLC/SANY, CommunityModules Bitwise/Json/IOUtils, clang. The table used as reference is derived in "
          "TLA+ from the bitwise definition; the C source's table is never read.",
